@@ -145,3 +145,38 @@ contract("C01.validate_individual_tags.definition_scope", file=V, func="HedValid
                            ("assign:is_definition", "scope_checks = scope_checks + 1")]},
          ensures={"C01.definition_scope.by_identity_not_by_content": "scope_ok"},
          assume=["loops explored as one arbitrary iteration from a havocked state (the clause is about each iteration separately)"])
+
+# C01 "forbidden character ... empty node name": the string-level phase runs the character rule on the text as written, the delimiter rules,
+# and the slash rule on EVERY tag of the annotation, at any depth of grouping
+class_model("HedValidatorS", {"_char_validator": "CharValidatorS", "_string_validator": "StringValidatorS"})
+class_model("CharValidatorS", {})
+class_model("StringValidatorS", {})
+contract("C01.char_issues_of_text", file="hed/validator/util/char_util.py", func="CharValidator.check_invalid_character_issues",
+         params={"self": "CharValidatorS", "hed_string": "Str", "allow_placeholders": "Bool"}, returns="List[Issue]", enc="native",
+         trusted=True, self_class="CharValidatorS", ensures={"named": "result == text_char_issues_of(hed_string, allow_placeholders)", "wf": WF})
+contract("C01.string_validator_issues", file="hed/validator/util/string_util.py", func="StringValidator.run_string_validator",
+         params={"self": "StringValidatorS", "hed_string_obj": "HedString"}, returns="List[Issue]", enc="native", trusted=True,
+         self_class="StringValidatorS", ensures={"named": "result == delimiter_issues_of(hed_string_obj)", "wf": WF})
+contract("C01.tag_formatting_issues", file=V, func="HedValidator.check_tag_formatting",
+         params={"self": "HedValidatorS", "original_tag": "HedTag"}, returns="List[Issue]", enc="native", trusted=True, self_class="HedValidatorS",
+         ensures={"named": "result == slash_issues_of(original_tag)", "wf": WF})
+contract("C01.original_text", file="hed/models/hed_group.py", func="HedGroup.get_original_hed_string",
+         params={"self": "HedString"}, returns="Str", enc="native", trusted=True, ensures={"named": "result == self._hed_string"})
+contract("C01.string_phase.every_tag_at_any_depth", file=V, func="HedValidator._run_hed_string_validators",
+         params={"self": "HedValidatorS", "hed_string_obj": "HedString", "allow_placeholders": "Bool"}, returns="List[Issue]", enc="native",
+         prop="C01", self_class="HedValidatorS", locals={"validation_issues": "List[Issue]"},
+         lets={"T": "all_tags_of(hed_string_obj)"},
+         ensures={
+             "C01.string_phase.slash_rule_on_every_tag": "all(all_in(slash_issues_of(T[k]), lambda x: is_in(x, result)) for k in range(len(T)))",
+             "C01.string_phase.character_and_delimiter_rules_run": "all_in(text_char_issues_of(hed_string_obj._hed_string, allow_placeholders), lambda x: is_in(x, result))"
+                                                                   " and all_in(delimiter_issues_of(hed_string_obj), lambda x: is_in(x, result))",
+             "C01.string_phase.nothing_invented": "all_in(result, lambda x: is_in(x, text_char_issues_of(hed_string_obj._hed_string, allow_placeholders))"
+                                                  " or is_in(x, delimiter_issues_of(hed_string_obj)) or any(is_in(x, slash_issues_of(T[k])) for k in range(len(T))))",
+         },
+         loops={0: {"invariant": [
+             "all(all_in(slash_issues_of(_iter0[k]), lambda x: is_in(x, validation_issues)) for k in range(_n))",
+             "all_in(text_char_issues_of(hed_string_obj._hed_string, allow_placeholders), lambda x: is_in(x, validation_issues))"
+             " and all_in(delimiter_issues_of(hed_string_obj), lambda x: is_in(x, validation_issues))",
+             "all_in(validation_issues, lambda x: is_in(x, text_char_issues_of(hed_string_obj._hed_string, allow_placeholders))"
+             " or is_in(x, delimiter_issues_of(hed_string_obj)) or any(is_in(x, slash_issues_of(_iter0[k])) for k in range(_n)))",
+         ]}})
